@@ -100,6 +100,7 @@ type Contract struct {
 	GhostFinal  []GhostStmt
 	SMT         []string          // raw SMT-LIB commands (recursive specification functions)
 	SMTFuns     map[string]string // function name -> result sort
+	Nullable    []string // pointer-typed cells that may be nil at entry
 	GhostParams []string
 	Lets        []GhostStmt // entry parametrisation: lvalue = expr (substituted into the entry state)
 }
@@ -393,6 +394,12 @@ func ParseContracts(file string) ([]*Contract, error) {
 				cur.SMTFuns = map[string]string{}
 			}
 			cur.SMTFuns[kv[0]] = kv[1]
+		case "nullable":
+			for _, v := range strings.Split(rest, ",") {
+				if v = strings.TrimSpace(v); v != "" {
+					cur.Nullable = append(cur.Nullable, v)
+				}
+			}
 		case "ghost-param":
 			for _, v := range strings.Split(rest, ",") {
 				if v = strings.TrimSpace(v); v != "" {
